@@ -50,7 +50,7 @@ func (c *Case) write(w *bufio.Writer) {
 		switch o.Kind {
 		case "put", "crashtorn", "crashtornhdr":
 			fmt.Fprintf(w, "%s %s %s\n", o.Kind, hx(o.K), valSpec(o.V))
-		case "growchain", "thinchain", "pushsplit", "killsegment", "rewritechain", "fillseg":
+		case "growchain", "thinchain", "pushsplit", "killsegment", "rewritechain", "fillseg", "drainchain":
 			fmt.Fprintf(w, "%s %d\n", o.Kind, len(o.V))
 		case "del", "get", "has":
 			fmt.Fprintf(w, "%s %s\n", o.Kind, hx(o.K))
@@ -144,7 +144,7 @@ func readCases(path string) []*Case {
 			cur = nil
 		case "put", "getappend", "crashtorn", "crashtornhdr":
 			cur.Ops = append(cur.Ops, Op{Kind: fs[0], K: unhx(fs[1]), V: unhx(fs[2])})
-		case "growchain", "thinchain", "pushsplit", "killsegment", "rewritechain", "fillseg":
+		case "growchain", "thinchain", "pushsplit", "killsegment", "rewritechain", "fillseg", "drainchain":
 			n := 0
 			if len(fs) > 1 {
 				n, _ = strconv.Atoi(fs[1])
@@ -399,7 +399,9 @@ func (h *harness) genCase(r *rng, name, stream string, nops int) *Case {
 			c.Ops = append(c.Ops, Op{Kind: "put", K: k, V: patternBytes(r.intn(4), byte(r.next()))})
 		}
 		mac := func() Op {
-			switch r.pick(26, 12, 10, 22, 8, 10, 12) {
+			switch r.pick(26, 12, 10, 22, 8, 10, 12, 6) {
+			case 7:
+				return Op{Kind: "drainchain"}
 			case 0:
 				return Op{Kind: "growchain", V: make([]byte, 10+r.intn(150))}
 			case 1:
@@ -449,6 +451,28 @@ func (h *harness) genCase(r *rng, name, stream string, nops int) *Case {
 			}
 		}
 		c.Ops = append(c.Ops, Op{Kind: "items"}, Op{Kind: "dump"}, Op{Kind: "reopen"}, Op{Kind: "items"})
+		return c
+	}
+	if stream == "ops" && (h.prop == "C01" || h.prop == "C02" || h.prop == "C11") && r.chance(8) {
+		// a long chain at the end of the overflow file is emptied and split away (all of its overflow
+		// buckets go to the free list, at the END of the file), the database is restarted, and later
+		// chains need more overflow buckets than the free list holds
+		h.stat("gen.freetail")
+		c.Cfg.MaxSeg = 65536
+		c.Pool = keyPool(r, c.Cfg.HashSeed, 20+r.intn(30), 0)
+		for _, k := range c.Pool {
+			c.Ops = append(c.Ops, Op{Kind: "put", K: k, V: patternBytes(r.intn(4), byte(r.next()))})
+		}
+		c.Ops = append(c.Ops, Op{Kind: "growchain", V: make([]byte, 260+r.intn(120))}, Op{Kind: "dump"})
+		if r.chance(50) {
+			c.Ops = append(c.Ops, Op{Kind: "reopen"})
+		}
+		c.Ops = append(c.Ops, Op{Kind: "drainchain"}, Op{Kind: "dump"}, Op{Kind: "reopen"}, Op{Kind: "dump"})
+		c.Ops = append(c.Ops, Op{Kind: "growchain", V: make([]byte, 300+r.intn(200))}, Op{Kind: "items"}, Op{Kind: "dump"},
+			Op{Kind: "reopen"}, Op{Kind: "items"}, Op{Kind: "dump"})
+		if r.chance(50) {
+			c.Ops = append(c.Ops, Op{Kind: "growchain", V: make([]byte, 100+r.intn(200))}, Op{Kind: "items"}, Op{Kind: "dump"})
+		}
 		return c
 	}
 	if (h.prop == "C01" || h.prop == "C11") && stream == "ops" && r.chance(30) {
@@ -845,6 +869,11 @@ func (h *harness) genCase(r *rng, name, stream string, nops int) *Case {
 						s.Kind = "del"
 					}
 					o.Sub = append(o.Sub, s)
+					if stream == "ploss" && r.chance(35) {
+						// an explicit Sync while the compaction is under way: everything acknowledged so far
+						// (also what sits in a segment the compaction has sealed) must be durable after it
+						o.Sub = append(o.Sub, SubOp{At: s.At, Kind: "sync"})
+					}
 				}
 				if (h.prop == "C09" || h.prop == "C10" || h.prop == "C06") && r.chance(25) || r.chance(4) {
 					// Close racing with this compaction at one of its lock-free points
@@ -918,8 +947,9 @@ func (h *harness) genCase(r *rng, name, stream string, nops int) *Case {
 				c.Ops = append(c.Ops, o)
 			case h.prop == "C04" && r.chance(25):
 				c.Ops = append(c.Ops, Op{Kind: "recoveryloop"})
-			case h.prop == "C13" || (stream != "ploss" && r.chance(30)):
-				if r.chance(50) {
+			case h.prop == "C13" || (h.prop == "C02" && stream == "ops" && r.chance(70)) || (stream != "ploss" && r.chance(30)):
+				// (C02 is about what Close leaves: its own runs fail a call inside Close more often)
+				if r.chance(50) || h.prop == "C02" {
 					c.Ops = append(c.Ops, Op{Kind: "failclose"})
 				} else {
 					c.Ops = append(c.Ops, Op{Kind: "failopen"})
@@ -1030,7 +1060,7 @@ func (s *session) checkpoint(withDump bool) {
 
 func isMacro(kind string) bool {
 	switch kind {
-	case "growchain", "thinchain", "pushsplit", "killsegment", "rewritechain", "fillseg":
+	case "growchain", "thinchain", "pushsplit", "killsegment", "rewritechain", "fillseg", "drainchain":
 		return true
 	}
 	return false
@@ -1154,6 +1184,28 @@ func (s *session) macro(kind string, n int) {
 				return bucketOf(d.Level, d.SplitBucketIdx, h) != uint32(target.idx) && (len(target.hashes) == 0 || h&7 != target.hashes[0]&7)
 			}))
 		}
+	case "drainchain":
+		// delete EVERY key of the longest chain (its overflow buckets stay linked, empty), then grow the
+		// table elsewhere until that bucket has been split: the whole chain goes to the free list (and
+		// sits there across the restarts that follow, to be reused by later chains)
+		target := s.longest(cs)
+		if target.buckets < 3 {
+			return
+		}
+		byHash := keysByHash()
+		for _, hv := range target.hashes {
+			for _, k := range byHash[hv] {
+				s.userOp(SubOp{Kind: "del", K: k})
+			}
+		}
+		for i := 0; i < 2000; i++ {
+			_, cs2, ok2 := s.chains()
+			if !ok2 || target.idx >= len(cs2) || cs2[target.idx].buckets == 1 {
+				break
+			}
+			put(s.freshKey(func(h uint32) bool { return h&7 != target.hashes[0]&7 }))
+		}
+		s.h.stat("macro.drainchain.done")
 	case "thinchain":
 		// delete about half of the keys of the longest chain
 		target := s.longest(cs)
@@ -1609,7 +1661,7 @@ func (s *session) crashTorn(o Op, hdr bool) {
 func (s *session) userOp(u SubOp) {
 	h := s.h
 	switch u.Kind {
-	case "growchain", "thinchain", "pushsplit", "killsegment", "rewritechain", "fillseg":
+	case "growchain", "thinchain", "pushsplit", "killsegment", "rewritechain", "fillseg", "drainchain":
 		s.macro(u.Kind, len(u.V))
 		return
 	}
@@ -1617,6 +1669,16 @@ func (s *session) userOp(u SubOp) {
 		// a maintenance task started while another one runs must be refused
 		_, err := s.db.Compact()
 		h.emit("bcompact %s", errStr(err))
+		return
+	}
+	if u.Kind == "sync" {
+		err := s.db.Sync()
+		h.emit("sync %s", errStr(err))
+		s.images("stable")
+		if err == nil {
+			h.emit("syncpoint")
+		}
+		h.stat("userop.sync")
 		return
 	}
 	if u.Kind == "put" {
@@ -1881,7 +1943,7 @@ func (h *harness) runCase(c *Case, stream string, r *rng) {
 			if c.Cfg.SyncMode && err == nil {
 				h.emit("syncpoint")
 			}
-		case "growchain", "thinchain", "pushsplit", "killsegment", "rewritechain", "fillseg":
+		case "growchain", "thinchain", "pushsplit", "killsegment", "rewritechain", "fillseg", "drainchain":
 			s.macro(o.Kind, len(o.V))
 		case "emptybucket":
 			// adaptive: delete every key stored in one non-tail bucket of a multi-bucket chain
@@ -1937,6 +1999,27 @@ func (h *harness) runCase(c *Case, stream string, r *rng) {
 			sinceCk = 1 << 30
 		case "reopen":
 			old := s.db
+			if d, derr := s.db.VerifDumpIndex(); derr == nil {
+				// input distribution: how many buckets at the end of the overflow file are free at Close
+				free := map[int64]bool{}
+				for _, o := range d.FreeBucketOffs {
+					free[o] = true
+				}
+				tail := 0
+				for off := int64(len(d.Overflow)) - 512; off >= 512 && free[off]; off -= 512 {
+					tail++
+				}
+				switch {
+				case tail == 0:
+					h.stat("close.freetail.0")
+				case tail < 4:
+					h.stat("close.freetail.1-3")
+				case tail < 8:
+					h.stat("close.freetail.4-7")
+				default:
+					h.stat("close.freetail.8+")
+				}
+			}
 			err := s.db.Close()
 			h.emit("close %s", errStr(err))
 			s.images("stable")
